@@ -5,9 +5,13 @@
    on_list.go and the segment loop of seekAndMux of on_get.go, over a file given as a list of bytes, with outcome
    Ok v | Err | Panic why and the list of sizes passed to make([]byte, n). `pinned` is the tree as it was found,
    `repaired` the tree after the five fix: commits. Third-party decoders are oracles: every theorem below holds for
-   ALL oracle functions / event lists, i.e. whatever go-mp4 and mediacommon return, as long as they return. *)
-From Coq Require Import List ZArith Bool.
+   ALL oracle functions / event lists, i.e. whatever go-mp4 and mediacommon return, as long as they return.
+   Directory level: Model/C28_Dir.v - parseSegments (goroutines, errors collected in completion order),
+   concatenateSegments, the tail of onList, and seekAndMux over the files FindSegments selected, any of which may be
+   unparsable (second half of this file). *)
+From Coq Require Import List ZArith Bool Permutation.
 Require Import MTX.Lib.IntWrap MTX.Model.C24_MulDiv MTX.Model.C28_SegRead MTX.Proofs.C28_SegRead.
+Require Import MTX.Model.C28_Dir MTX.Proofs.C28_Dir.
 Import ListNotations.
 Local Open Scope Z_scope.
 
@@ -98,3 +102,67 @@ Example C28_mux_nontrivial :
         = (Ok s, [2]) /\ s.(m_seg_dur) = 2 * nanos /\
         s.(m_calls) = [FinalDTS 180000; WriteSample 90000 0 false 2 803; SetTrack 1].
 Proof. exact mux_nontrivial. Qed.
+
+(* ================= directory level: valid segments next to zero-filled / truncated / foreign files ================= *)
+(* `file_ok f`: the file is a list of bytes and fmp4.Init.Unmarshal only returns tracks with a non-zero timescale;
+   everything else about the file (content, what the third-party decoders answer on it, the start decoded from its
+   name, its stream-id box, the box events and the dts of /get) is arbitrary. `sched` is the order in which the
+   collecting loop of parseSegments receives the goroutines' results: any permutation of 0..n-1.
+
+   For every list of selected files - unparsable ones in any position, one, several or all of them -, every
+   completion order and every window:
+   - /list (parseSegments, concatenateSegments, entries[0], entries[1:], entries[len-1]) ends in a status, not in a
+     nil dereference or an index out of range;
+   - /get (seekAndMux: segments[0], header / mux errors of the first and of later files, mtxi.DTS) ends in a class
+     of answers, not in a panic;
+   the same with the per-file outcomes as arbitrary non-panicking values (third and fourth statement). *)
+Theorem C28_dir_no_panic :
+  (forall files sched start end_ w,
+     Forall file_ok files -> Permutation sched (seq 0 (length files)) ->
+     on_list_files files sched start end_ <> Panic w) /\
+  (forall files duration w, Forall file_ok files -> on_get_files files duration <> Panic w) /\
+  (forall found sched start end_ w,
+     first_panic found = None -> Permutation sched (seq 0 (length found)) ->
+     on_list_dir KeepAny found sched start end_ <> Panic w) /\
+  (forall found w, Forall gfile_ok found -> on_get_dir found <> Panic w).
+Proof. exact dir_no_panic_all. Qed.
+Print Assumptions C28_dir_no_panic.
+
+(* What /list answers: status 500 exactly when one of the selected files cannot be parsed (no error is lost,
+   whichever goroutine finishes last), and the whole answer is independent of the completion order. *)
+Theorem C28_list_dir_answer :
+  (forall files sched start end_,
+     Forall file_ok files -> Permutation sched (seq 0 (length files)) -> files <> [] ->
+     match start, end_ with Some s, Some e => e <? s | _, _ => false end = false ->
+     (on_list_files files sched start end_ = Ok L500 <-> exists f, In f files /\ file_parse f = Err)) /\
+  (forall found sched start end_, Permutation sched (seq 0 (length found)) ->
+     on_list_dir KeepAny found sched start end_ = on_list_dir KeepAny found (seq 0 (length found)) start end_).
+Proof. exact dir_list_answer_all. Qed.
+Print Assumptions C28_list_dir_answer.
+
+(* The collecting loop must keep ANY error: with `err = <-ch` (KeepLast) an unparsable file followed by a valid one
+   that finishes later leaves a nil slot that concatenateSegments dereferences; and whatever the discipline, a nil
+   slot in the list handed to concatenateSegments is a nil dereference. *)
+Theorem C28_list_keep_last_refuted :
+  (exists found sched, first_panic found = None /\ Permutation sched (seq 0 (length found)) /\
+     on_list_dir KeepLast found sched None None = Panic NilDeref) /\
+  (forall l1 l2, concatenate_segments (map Some l1 ++ None :: l2) = Panic NilDeref).
+Proof. split; [exact keep_last_refuted|exact nil_slot_panics]. Qed.
+Print Assumptions C28_list_keep_last_refuted.
+
+(* the same two files under the code's loop: 500; under KeepLast the other completion order hides the defect *)
+Example C28_keep_last_same_input :
+  on_list_dir KeepAny [Err; Ok w_seg] [0%nat; 1%nat] None None = Ok L500 /\
+  on_list_dir KeepLast [Err; Ok w_seg] [1%nat; 0%nat] None None = Ok L500.
+Proof. exact keep_last_same_input. Qed.
+(* non-vacuity: an unparsable file between two valid ones -> 500; two contiguous valid files -> one clipped entry *)
+Example C28_list_dir_nontrivial :
+  on_list_dir KeepAny [Ok w_seg; Err; Ok (PS 5000000000 1 None [(1, 90000, 1)])] [2%nat; 0%nat; 1%nat] None None = Ok L500 /\
+  on_list_dir KeepAny [Ok w_seg; Ok (PS 2000001000 3000000000 None [(1, 90000, 1)])] [1%nat; 0%nat] (Some 500000000) None
+    = Ok (L200 [LE 500000000 4500001000]).
+Proof. exact list_nontrivial. Qed.
+Example C28_get_dir_nontrivial :
+  on_get_dir [GF (Ok w_seg) (Ok 2000000000); GF Err Err] = Ok GFailed /\
+  on_get_dir [GF Err Err; GF (Ok w_seg) (Ok 2000000000)] = Ok GBadFirst /\
+  on_get_dir [GF (Ok w_seg) (Ok 2000000000); GF (Ok (PS 2000001000 0 None [(1, 90000, 1)])) (Ok 5)] = Ok (GMuxed 2).
+Proof. exact get_nontrivial. Qed.
